@@ -781,7 +781,7 @@ where
 
     /// What is the cost of a minimal sentence for the rule `ridx`? Note that, unlike
     /// `min_sentence`, this function does not actually *build* a sentence and it is thus much
-    /// faster.
+    /// faster. A rule from which no sentence can be derived has the cost `u16::MAX`.
     pub fn min_sentence_cost(&self, ridx: RIdx<StorageT>) -> u16 {
         self.rule_min_costs
             .borrow_mut()
@@ -789,8 +789,9 @@ where
     }
 
     /// What is the cost of a maximal sentence for the rule `ridx`? Rules which can generate
-    /// sentences of unbounded length return None; rules which can only generate maximal strings of
-    /// a finite length return a `Some(u16)`.
+    /// sentences of unbounded cost return None; rules which can only generate maximal strings of
+    /// a finite cost return a `Some(u16)`. A rule from which no sentence can be derived returns
+    /// `Some(0)`.
     pub fn max_sentence_cost(&self, ridx: RIdx<StorageT>) -> Option<u16> {
         let v = self
             .rule_max_costs
@@ -799,37 +800,64 @@ where
         if v == u16::MAX { None } else { Some(v) }
     }
 
+    /// Is `pidx` one of the cheapest productions of `ridx`, i.e. do the minimal costs of its
+    /// symbols add up to the minimal cost of `ridx`?
+    fn is_cheapest_prod(&self, ridx: RIdx<StorageT>, pidx: PIdx<StorageT>) -> bool {
+        let mut sc = 0;
+        for sym in self.grm.prod(pidx).iter() {
+            sc += match *sym {
+                Symbol::Rule(i) => u64::from(self.min_sentence_cost(i)),
+                Symbol::Token(i) => u64::from(self.token_costs[usize::from(i)]),
+            };
+        }
+        sc == u64::from(self.min_sentence_cost(ridx))
+    }
+
     /// Non-deterministically return a minimal sentence from the set of minimal sentences for the
-    /// rule `ridx`.
+    /// rule `ridx`. If no sentence can be derived from `ridx`, the empty sentence is returned.
     pub fn min_sentence(&self, ridx: RIdx<StorageT>) -> Vec<TIdx<StorageT>> {
-        let cheapest_prod = |p_ridx: RIdx<StorageT>| -> PIdx<StorageT> {
-            let mut low_sc = None;
-            let mut low_idx = None;
-            for &pidx in self.grm.rule_to_prods(p_ridx).iter() {
-                let mut sc = 0;
-                for sym in self.grm.prod(pidx).iter() {
-                    sc += match *sym {
-                        Symbol::Rule(i) => self.min_sentence_cost(i),
-                        Symbol::Token(i) => u16::from(self.token_costs[usize::from(i)]),
-                    };
+        // For each rule we pick a cheapest production whose rules all had their production picked
+        // earlier: expanding the picked productions thus cannot go round in circles (as it could
+        // with e.g. `A: A | 'x';` where both productions of `A` are equally cheap). Every rule
+        // which derives a sentence is eventually picked for, because the production at the root of
+        // a minimal sentence's smallest derivation tree only references rules with smaller trees.
+        let mut picked = vec![None; usize::from(self.grm.rules_len())];
+        loop {
+            let mut changed = false;
+            for p_ridx in self.grm.iter_rules() {
+                if picked[usize::from(p_ridx)].is_some()
+                    || self.min_sentence_cost(p_ridx) == u16::MAX
+                {
+                    continue;
                 }
-                if low_sc.is_none() || Some(sc) < low_sc {
-                    low_sc = Some(sc);
-                    low_idx = Some(pidx);
-                }
+                picked[usize::from(p_ridx)] =
+                    self.grm
+                        .rule_to_prods(p_ridx)
+                        .iter()
+                        .copied()
+                        .find(|&pidx| {
+                            self.is_cheapest_prod(p_ridx, pidx)
+                                && self.grm.prod(pidx).iter().all(|sym| match *sym {
+                                    Symbol::Rule(i) => picked[usize::from(i)].is_some(),
+                                    Symbol::Token(_) => true,
+                                })
+                        });
+                changed |= picked[usize::from(p_ridx)].is_some();
             }
-            low_idx.unwrap()
-        };
+            if !changed {
+                break;
+            }
+        }
 
         let mut s = vec![];
-        let mut st = vec![(cheapest_prod(ridx), 0)];
+        let mut st = Vec::from_iter(picked[usize::from(ridx)].map(|pidx| (pidx, 0)));
         while let Some((pidx, sym_idx)) = st.pop() {
             let prod = self.grm.prod(pidx);
             for (sidx, sym) in prod.iter().enumerate().skip(sym_idx) {
                 match sym {
                     Symbol::Rule(s_ridx) => {
                         st.push((pidx, sidx + 1));
-                        st.push((cheapest_prod(*s_ridx), 0));
+                        st.push((picked[usize::from(*s_ridx)].unwrap(), 0));
                         break;
                     }
                     Symbol::Token(s_tidx) => {
@@ -841,32 +869,37 @@ where
         s
     }
 
-    /// Return (in arbitrary order) all the minimal sentences for the rule `ridx`.
+    /// Return (in arbitrary order) all the minimal sentences for the rule `ridx` (none if no
+    /// sentence can be derived from `ridx`).
     pub fn min_sentences(&self, ridx: RIdx<StorageT>) -> Vec<Vec<TIdx<StorageT>>> {
-        let cheapest_prods = |p_ridx: RIdx<StorageT>| -> Vec<PIdx<StorageT>> {
-            let mut low_sc = None;
-            let mut low_idxs = vec![];
-            for &pidx in self.grm.rule_to_prods(p_ridx).iter() {
-                let mut sc = 0;
-                for sym in self.grm.prod(pidx).iter() {
-                    sc += match *sym {
-                        Symbol::Rule(s_ridx) => self.min_sentence_cost(s_ridx),
-                        Symbol::Token(s_tidx) => u16::from(self.token_costs[usize::from(s_tidx)]),
-                    };
-                }
-                if low_sc.is_none() || Some(sc) <= low_sc {
-                    if Some(sc) < low_sc {
-                        low_idxs.clear();
-                    }
-                    low_sc = Some(sc);
-                    low_idxs.push(pidx);
-                }
-            }
-            low_idxs
-        };
+        self.min_sentences_below(ridx, &mut vec![false; usize::from(self.grm.rules_len())])
+    }
 
+    /// The minimal sentences of `ridx` that have a derivation which does not use the rules in
+    /// `active` and does not use a rule again below itself. A derivation of a minimal sentence
+    /// which does use a rule `R` again below itself derives the same sentence from both
+    /// occurrences of `R` (otherwise the sentence would not be minimal: token costs are greater
+    /// than 0), so no sentence is lost when only the inner one is kept; excluding such
+    /// derivations is what makes the enumeration finite for e.g. `A: A | 'x';`.
+    fn min_sentences_below(
+        &self,
+        ridx: RIdx<StorageT>,
+        active: &mut Vec<bool>,
+    ) -> Vec<Vec<TIdx<StorageT>>> {
         let mut sts = Vec::new(); // Output sentences
-        for pidx in cheapest_prods(ridx) {
+        if self.min_sentence_cost(ridx) == u16::MAX {
+            return sts;
+        }
+        active[usize::from(ridx)] = true;
+        for &pidx in self.grm.rule_to_prods(ridx).iter() {
+            if !self.is_cheapest_prod(ridx, pidx)
+                || self.grm.prod(pidx).iter().any(|sym| match *sym {
+                    Symbol::Rule(s_ridx) => active[usize::from(s_ridx)],
+                    Symbol::Token(_) => false,
+                })
+            {
+                continue;
+            }
             let prod = self.grm.prod(pidx);
             if prod.is_empty() {
                 sts.push(vec![]);
@@ -886,9 +919,13 @@ where
             let mut ms = Vec::with_capacity(prod.len());
             for sym in prod {
                 match *sym {
-                    Symbol::Rule(s_ridx) => ms.push(self.min_sentences(s_ridx)),
+                    Symbol::Rule(s_ridx) => ms.push(self.min_sentences_below(s_ridx, active)),
                     Symbol::Token(s_tidx) => ms.push(vec![vec![s_tidx]]),
                 }
+            }
+            if ms.iter().any(|x| x.is_empty()) {
+                // All the derivations of one of the production's rules are excluded.
+                continue;
             }
 
             // Second, we need to generate all combinations of the gathered sentences. We do this
@@ -938,12 +975,14 @@ where
                 }
             }
         }
+        active[usize::from(ridx)] = false;
         sts
     }
 }
 
-/// Return the cost of a minimal string for each rule in this grammar. The cost of a
-/// token is specified by the user-defined `token_cost` function.
+/// Return the cost of a minimal string for each rule in this grammar (`u16::MAX` for a rule
+/// from which no string can be derived). The cost of a token is specified by the user-defined
+/// `token_cost` function.
 fn rule_min_costs<StorageT: 'static + PrimInt + Unsigned>(
     grm: &YaccGrammar<StorageT>,
     token_costs: &[u8],
@@ -951,87 +990,21 @@ fn rule_min_costs<StorageT: 'static + PrimInt + Unsigned>(
 where
     usize: AsPrimitive<StorageT>,
 {
-    // We use a simple(ish) fixed-point algorithm to determine costs. We maintain two lists
-    // "costs" and "done". An integer costs[i] starts at 0 and monotonically increments
-    // until done[i] is true, at which point costs[i] value is fixed. We also use the done
-    // list as a simple "todo" list: whilst there is at least one false value in done, there is
-    // still work to do.
-    //
-    // On each iteration of the loop, we examine each rule in the todo list to see if
-    // we can get a better idea of its true cost. Some are trivial:
-    //   * A rule with an empty production immediately has a cost of 0.
-    //   * Rules whose productions don't reference any rules (i.e. only contain tokens) can be
-    //     immediately given a cost by calculating the lowest-cost production.
-    // However if a rule A references another rule B, we may need to wait until
-    // we've fully analysed B before we can cost A. This might seem to cause problems with
-    // recursive rules, so we introduce the concept of "incomplete costs" i.e. if a production
-    // references a rule we can work out its minimum possible cost simply by counting
-    // the production's token costs. Since rules can have a mix of complete and
-    // incomplete productions, this is sometimes enough to allow us to assign a final cost to
-    // a rule (if the lowest complete production's cost is lower than or equal to all
-    // the lowest incomplete production's cost). This allows us to make progress, since it
-    // means that we can iteratively improve our knowledge of a token's minimum cost:
-    // eventually we will reach a point where we can determine it definitively.
-
-    let mut costs = vec![0; usize::from(grm.rules_len())];
-    let mut done = vec![false; usize::from(grm.rules_len())];
-    loop {
-        let mut all_done = true;
-        for i in 0..done.len() {
-            if done[i] {
-                continue;
-            }
-            all_done = false;
-            let mut ls_cmplt = None; // lowest completed cost
-            let mut ls_noncmplt = None; // lowest non-completed cost
-
-            // The call to as_() is guaranteed safe because done.len() == grm.rules_len(), and
-            // we guarantee that grm.rules_len() can fit in StorageT.
-            for pidx in grm.rule_to_prods(RIdx(i.as_())).iter() {
-                let mut c: u16 = 0; // production cost
-                let mut cmplt = true;
-                for sym in grm.prod(*pidx) {
-                    let sc = match *sym {
-                        Symbol::Token(tidx) => u16::from(token_costs[usize::from(tidx)]),
-                        Symbol::Rule(ridx) => {
-                            if !done[usize::from(ridx)] {
-                                cmplt = false;
-                            }
-                            costs[usize::from(ridx)]
-                        }
-                    };
-                    c = c
-                        .checked_add(sc)
-                        .expect("Overflow occurred when calculating rule costs");
-                }
-                if cmplt && (ls_cmplt.is_none() || Some(c) < ls_cmplt) {
-                    ls_cmplt = Some(c);
-                } else if !cmplt && (ls_noncmplt.is_none() || Some(c) < ls_noncmplt) {
-                    ls_noncmplt = Some(c);
-                }
-            }
-            if let Some(low_cmplt) = ls_cmplt
-                && (ls_noncmplt.is_none() || ls_cmplt < ls_noncmplt)
-            {
-                debug_assert!(low_cmplt >= costs[i]);
-                costs[i] = low_cmplt;
-                done[i] = true;
-            } else if let Some(ls_noncmplt) = ls_noncmplt {
-                debug_assert!(ls_noncmplt >= costs[i]);
-                costs[i] = ls_noncmplt;
-            }
-        }
-        if all_done {
-            debug_assert!(done.iter().all(|x| *x));
-            break;
-        }
-    }
-    costs
+    let skip = vec![false; usize::from(grm.rules_len())];
+    rule_costs(grm, token_costs, false, &skip)
+        .into_iter()
+        .map(|c| match c {
+            None => u16::MAX,
+            Some(u16::MAX) => panic!("Overflow occurred when calculating rule costs"),
+            Some(c) => c,
+        })
+        .collect()
 }
 
-/// Return the cost of the maximal string for each rule in this grammar (u32::max_val()
-/// representing "this rule can generate strings of infinite length"). The cost of a
-/// token is specified by the user-defined `token_cost` function.
+/// Return the cost of the maximal string for each rule in this grammar (`u16::MAX`
+/// representing "this rule can generate strings of unbounded cost"; 0 for a rule from which no
+/// string can be derived). The cost of a token is specified by the user-defined `token_cost`
+/// function.
 fn rule_max_costs<StorageT: 'static + PrimInt + Unsigned>(
     grm: &YaccGrammar<StorageT>,
     token_costs: &[u8],
@@ -1039,79 +1012,144 @@ fn rule_max_costs<StorageT: 'static + PrimInt + Unsigned>(
 where
     usize: AsPrimitive<StorageT>,
 {
-    let mut done = vec![false; usize::from(grm.rules_len())];
-    let mut costs = vec![0; usize::from(grm.rules_len())];
+    let n = usize::from(grm.rules_len());
+    // Productions which reference a rule from which no string can be derived do not occur in
+    // any derivation of a string, so they must not play a part in what follows.
+    let mins = rule_costs(grm, token_costs, false, &vec![false; n]);
+    let useful = |pidx| {
+        grm.prod(pidx).iter().all(|sym| match *sym {
+            Symbol::Token(_) => true,
+            Symbol::Rule(ridx) => mins[usize::from(ridx)].is_some(),
+        })
+    };
 
-    // First mark all recursive rules.
-    for ridx in grm.iter_rules() {
-        // Calling has_path so frequently is not exactly efficient...
-        if grm.has_path(ridx, ridx) {
-            costs[usize::from(ridx)] = u16::MAX;
-            done[usize::from(ridx)] = true;
-        }
-    }
-
+    // reach[a][b] is true iff a string containing rule b can be derived from rule a in one or
+    // more steps. Each round extends the derivations found by the previous round by one step,
+    // until no new pair is found.
+    let mut reach = vec![vec![false; n]; n];
     loop {
-        let mut all_done = true;
-        for i in 0..done.len() {
-            if done[i] {
-                continue;
-            }
-            all_done = false;
-            let mut hs_cmplt = None; // highest completed cost
-            let mut hs_noncmplt = None; // highest non-completed cost
-
-            // The call to as_() is guaranteed safe because done.len() == grm.rules_len(), and
-            // we guarantee that grm.rules_len() can fit in StorageT.
-            'a: for pidx in grm.rule_to_prods(RIdx(i.as_())).iter() {
-                let mut c: u16 = 0; // production cost
-                let mut cmplt = true;
-                for sym in grm.prod(*pidx) {
-                    let sc = match *sym {
-                        Symbol::Token(s_tidx) => u16::from(token_costs[usize::from(s_tidx)]),
-                        Symbol::Rule(s_ridx) => {
-                            if costs[usize::from(s_ridx)] == u16::MAX {
-                                // As soon as we find reference to an infinite rule, we
-                                // can stop looking.
-                                hs_cmplt = Some(u16::MAX);
-                                break 'a;
-                            }
-                            if !done[usize::from(s_ridx)] {
-                                cmplt = false;
-                            }
-                            costs[usize::from(s_ridx)]
+        let mut new = reach.clone();
+        for pidx in grm.iter_pidxs().filter(|pidx| useful(*pidx)) {
+            let a = usize::from(grm.prod_to_rule(pidx));
+            for sym in grm.prod(pidx) {
+                if let Symbol::Rule(b) = *sym {
+                    new[a][usize::from(b)] = true;
+                    for c in 0..n {
+                        if reach[usize::from(b)][c] {
+                            new[a][c] = true;
                         }
-                    };
-                    c = c
-                        .checked_add(sc)
-                        .expect("Overflow occurred when calculating rule costs");
-                    if c == u16::MAX {
-                        panic!("Unable to represent cost in 64 bits.");
                     }
                 }
-                if cmplt && (hs_cmplt.is_none() || Some(c) > hs_cmplt) {
-                    hs_cmplt = Some(c);
-                } else if !cmplt && (hs_noncmplt.is_none() || Some(c) > hs_noncmplt) {
-                    hs_noncmplt = Some(c);
-                }
-            }
-            if let Some(high_cmplt) = hs_cmplt
-                && (hs_noncmplt.is_none() || hs_cmplt > hs_noncmplt)
-            {
-                debug_assert!(high_cmplt >= costs[i]);
-                costs[i] = high_cmplt;
-                done[i] = true;
-            } else if let Some(hs_noncmplt) = hs_noncmplt {
-                debug_assert!(hs_noncmplt >= costs[i]);
-                costs[i] = hs_noncmplt;
             }
         }
-        if all_done {
-            debug_assert!(done.iter().all(|x| *x));
+        if new == reach {
             break;
         }
+        reach = new;
     }
-    costs
+
+    // Can a string whose cost is greater than 0 be derived from sym?
+    let mut tok_gt0 = vec![false; n]; // Does the rule have a production with a token of cost > 0?
+    for pidx in grm.iter_pidxs().filter(|pidx| useful(*pidx)) {
+        if grm.prod(pidx).iter().any(|sym| match *sym {
+            Symbol::Token(tidx) => token_costs[usize::from(tidx)] > 0,
+            Symbol::Rule(_) => false,
+        }) {
+            tok_gt0[usize::from(grm.prod_to_rule(pidx))] = true;
+        }
+    }
+    let gt0 = |sym: &Symbol<StorageT>| match *sym {
+        Symbol::Token(tidx) => token_costs[usize::from(tidx)] > 0,
+        Symbol::Rule(ridx) => {
+            let a = usize::from(ridx);
+            tok_gt0[a] || (0..n).any(|b| reach[a][b] && tok_gt0[b])
+        }
+    };
+
+    // A rule A can generate strings of unbounded cost iff it is, or can reach, a rule B such that
+    // B =>+ x B y where the cost of x y is greater than 0 (each round trip from B to B then makes
+    // the string more expensive). Recursion on its own is not enough: `A: A | 'x';` only
+    // generates the string 'x'.
+    let mut pumpable = vec![false; n];
+    for pidx in grm.iter_pidxs().filter(|pidx| useful(*pidx)) {
+        let a = usize::from(grm.prod_to_rule(pidx));
+        let prod = grm.prod(pidx);
+        for (i, sym) in prod.iter().enumerate() {
+            if let Symbol::Rule(b) = *sym {
+                let b = usize::from(b);
+                if (b == a || reach[b][a])
+                    && prod.iter().enumerate().any(|(j, sym)| j != i && gt0(sym))
+                {
+                    pumpable[a] = true;
+                }
+            }
+        }
+    }
+    let unbounded = (0..n)
+        .map(|a| pumpable[a] || (0..n).any(|b| reach[a][b] && pumpable[b]))
+        .collect::<Vec<_>>();
+
+    rule_costs(grm, token_costs, true, &unbounded)
+        .into_iter()
+        .zip(unbounded.iter())
+        .map(|(c, unbounded)| match c {
+            _ if *unbounded => u16::MAX,
+            None => 0,
+            Some(u16::MAX) => panic!("Overflow occurred when calculating rule costs"),
+            Some(c) => c,
+        })
+        .collect()
+}
+
+/// Return the cost of the minimal (`max == false`) or the maximal (`max == true`) string
+/// derivable from each rule of this grammar: `None` if no string can be derived from a rule,
+/// `Some(u16::MAX)` if the cost is `u16::MAX` or more. The rules in `skip` are treated as if no
+/// string could be derived from them; if `max == true` these must include the rules which can
+/// generate strings of unbounded cost.
+fn rule_costs<StorageT: 'static + PrimInt + Unsigned>(
+    grm: &YaccGrammar<StorageT>,
+    token_costs: &[u8],
+    max: bool,
+    skip: &[bool],
+) -> Vec<Option<u16>>
+where
+    usize: AsPrimitive<StorageT>,
+{
+    // We use a fixed-point algorithm over the height of derivation trees: after n rounds costs[i]
+    // is the cost of the cheapest (or most expensive) string that rule i derives with a tree of
+    // height <= n, or None if there is no such tree. The cost of a production can be calculated
+    // as soon as every rule it references has a cost. If a rule occurs again below itself in a
+    // derivation tree then cutting out the part of the tree between the two occurrences never
+    // makes the string more expensive (and, if no rule can generate strings of unbounded cost,
+    // never cheaper either). Hence trees higher than the number of rules need not be considered,
+    // and the costs stop changing after at most that many rounds.
+    let mut costs: Vec<Option<u16>> = vec![None; usize::from(grm.rules_len())];
+    loop {
+        let mut new = Vec::with_capacity(costs.len());
+        for ridx in grm.iter_rules() {
+            let mut best = None;
+            if !skip[usize::from(ridx)] {
+                for pidx in grm.rule_to_prods(ridx).iter() {
+                    let mut c = Some(0u16); // production cost
+                    for sym in grm.prod(*pidx) {
+                        let sc = match *sym {
+                            Symbol::Token(tidx) => Some(u16::from(token_costs[usize::from(tidx)])),
+                            Symbol::Rule(s_ridx) => costs[usize::from(s_ridx)],
+                        };
+                        c = c.zip(sc).map(|(c, sc)| c.saturating_add(sc));
+                    }
+                    if c.is_some() && (best.is_none() || if max { c > best } else { c < best }) {
+                        best = c;
+                    }
+                }
+            }
+            new.push(best);
+        }
+        if new == costs {
+            return costs;
+        }
+        costs = new;
+    }
 }
 
 #[cfg(test)]
